@@ -1450,30 +1450,39 @@ def load_supported():
 #   phase 2: deterministic candidate set, g++ -fsyntax-only; a composition is retried without the nested-functor variant,
 #            an extraction without the compute-graph part
 # ---------------------------------------------------------------------------------------------------------
-def _compile(src_text, path, syntax_only=True, out=None):
+def _compile(src_text, path, syntax_only=True, out=None, timeout=300):
+    """g++ -O0 (syntax only by default).  A compilation that needs more than `timeout` seconds is a template explosion
+    (e.g. nested functor calls on maybe-typed results) and counts as unsupported."""
     import subprocess
+    import time
     from . import build as B
     with open(path, "w") as f:
         f.write(src_text)
     cmd = ["g++", "-std=c++17", "-O0", "-DNMTOOLS_VERIF", "-D_GLIBCXX_ASSERTIONS", "-isystem", os.path.join(B.REPO, "include"), "-I", B.HARNESS, path]
     cmd += ["-fsyntax-only"] if syntax_only else ["-o", out]
+    txt = ""
     for attempt in range(4):
-        p = subprocess.run(cmd, stdout=subprocess.PIPE, stderr=subprocess.STDOUT, text=True)
+        try:
+            p = subprocess.run(cmd, stdout=subprocess.PIPE, stderr=subprocess.STDOUT, text=True, timeout=timeout)
+        except subprocess.TimeoutExpired:
+            subprocess.run(["pkill", "-f", path])
+            os.remove(path)
+            return False, "compilation exceeds %d s" % timeout
+        txt = p.stdout
         if p.returncode == 0:
             os.remove(path)
             return True, ""
-        if "Killed signal" in p.stdout or "out of memory" in p.stdout or "Cannot allocate" in p.stdout:
-            import time
+        if "Killed signal" in txt or "out of memory" in txt or "Cannot allocate" in txt:
             time.sleep(20 * (attempt + 1))
             continue
         break
     os.remove(path)
     err = ""
-    for ln in p.stdout.splitlines():
+    for ln in txt.splitlines():
         if "error" in ln:
             err = ln[-260:]
             break
-    return False, err or p.stdout[-260:]
+    return False, err or txt[-260:]
 
 
 def _hints_for(spec, seed):
@@ -1616,8 +1625,8 @@ def _probe_main(argv):
         if spec["t"] == "C":
             attempts.append(dict(spec, graph=False))
         err = ""
-        for sp in attempts:
-            ok, err = _compile(gen_tu([("e0", sp)]), os.path.join(work, "p%d.cpp" % i))
+        for ai, sp in enumerate(attempts):
+            ok, err = _compile(gen_tu([("e0", sp)]), os.path.join(work, "p%d.cpp" % i), timeout=120 if (len(attempts) > 1 and ai == 0) else 300)
             if ok:
                 return i, sp, hints, ""
         return i, None, None, err
